@@ -15,22 +15,22 @@ frame 89fe025811223344
 ## F33 close frame with a 64 bit declared length
 conn server daemon real 0
 frame 88ff000000010000000011223344
-## F36 unmasked data frame larger than the read buffer (1001 before 2dc4431)
+## F51 unmasked data frame larger than the read buffer (1001 before 2dc4431)
 conn server daemon stub 512
 frame 817e0258
-## F36 RSV1 on a data frame larger than the read buffer
+## F51 RSV1 on a data frame larger than the read buffer
 conn server daemon real 0
 frame c1fe025811223344
-## F36 reserved opcode on a frame larger than the read buffer
+## F51 reserved opcode on a frame larger than the read buffer
 conn server daemon stub 512
 frame 83fe025811223344
-## F36 fragmented ping (FIN=0) larger than the read buffer
+## F51 fragmented ping (FIN=0) larger than the read buffer
 conn server daemon stub 512
 frame 09fe025811223344
-## F37 empty pong frame (memcpy from NULL in the daemon's pong callback before 2c6e6f4)
+## F52 empty pong frame (memcpy from NULL in the daemon's pong callback before 2c6e6f4)
 conn server daemon stub 512
 frame 8a8011223344
 frame 898011223344
-## F37 empty pong through the real reader
+## F52 empty pong through the real reader
 conn server daemon real 0
 frame 8a8011223344 chunks=1,1,1,1,1,1
